@@ -152,8 +152,12 @@ Definition proc_accepted (c : pcase) : Prop :=
   (* an error that is not the predicate's (and any call of Filter) leaves the table exactly as it was *)
   ((o_err o = true /\ o_pred_err o = false) \/ writes c = false -> o_table o = c_pre c) /\
   (* re-read after later Process calls on other events: still the stored value *)
-  (forall x, o_final o = Some x -> x = tget fmt_json (o_table o)).
+  (forall x, o_final o = Some x -> x = tget fmt_json (o_table o)) /\
+  (* ... and so are the payload, type, time and the other entries *)
+  o_still o = true.
 
+Lemma chk_still_iff o : chk_still o = [] <-> o_still o = true.
+Proof. unfold chk_still. apply ite_nil_iff. Qed.
 Lemma chk_model_iff c : chk_model c = [] <-> (forall v, c_payload c = Some v -> wf v).
 Proof.
   unfold chk_model. destruct (c_payload c) as [v|].
@@ -216,7 +220,7 @@ Theorem run_proc_nil_iff c : run_proc c = [] <-> proc_accepted c.
 Proof.
   unfold run_proc, proc_accepted. destruct (model_proc c) as [e' oc]. cbn [fst snd].
   rewrite !app_nil_iff, chk_model_iff, chk_err_iff, chk_out_iff, chk_bytes_iff, chk_other_iff, chk_frame_iff,
-    chk_line_iff, chk_errstored_iff, chk_final_iff. tauto.
+    chk_line_iff, chk_errstored_iff, chk_final_iff, chk_still_iff. tauto.
 Qed.
 
 (* ------------------------------------------------------------------ a forced FormattedAs / Format schedule *)
@@ -301,7 +305,7 @@ Definition property_ok (c : pcase) : Prop :=
   (writes c = true -> o_err o = false -> forall t v, c_time c = Some t -> c_payload c = Some v ->
      exists b, tget fmt_json (o_table o) = Some b /\ line_decl c b v) /\
   ((o_err o = true /\ o_pred_err o = false) \/ writes c = false -> o_table o = c_pre c) /\
-  (forall x, o_final o = Some x -> x = tget fmt_json (o_table o)).
+  (forall x, o_final o = Some x -> x = tget fmt_json (o_table o)) /\ o_still o = true.
 Theorem accepted_property_ok c : proc_accepted c -> property_ok c.
 Proof. unfold proc_accepted, property_ok. tauto. Qed.
 (* the kinds the engine treats as drift are exactly the byte comparison: without it the verdict is property_ok *)
@@ -338,6 +342,7 @@ Proof.
       destruct (c_time c); [|destruct Hk]. destruct (c_payload c); [|destruct Hk]. destruct (final_of (c_obs c)); [|destruct Hk].
       apply in_app_or in Hk; destruct Hk as [Hk|Hk];
         match type of Hk with In _ (if ?x then _ else _) => destruct x; [destruct Hk|destruct Hk as [<-|[]]; discriminate] end. }
-  rewrite chk_err_iff, chk_out_iff, chk_other_iff, chk_frame_iff, chk_line_iff, chk_errstored_iff, chk_final_iff. tauto.
+  rewrite (Hf (chk_still (c_obs c))) by (unfold chk_still; intros k Hk; destruct (o_still _); [destruct Hk|destruct Hk as [<-|[]]; discriminate]).
+  rewrite chk_err_iff, chk_out_iff, chk_other_iff, chk_frame_iff, chk_line_iff, chk_errstored_iff, chk_final_iff, chk_still_iff. tauto.
 Qed.
 Print Assumptions property_kinds_nil_iff.
